@@ -734,6 +734,11 @@ def run(ctx):
     ctx.prove(PROPS)
     if not ctx.quick:
         ctx.leanchecker(PROPS)
+    try:
+        g = open(os.path.join(core.VERIF, "lean", "SharkVerif", "Gen", "LineSearchSrc.lean")).read()
+        ctx.cov["wolfecubic_bracket_initialised_in_tree"] = "wolfeBracketInitialised : Bool := true" in g
+    except OSError:
+        pass
     exe = build(ctx)
     drv = ctx.driver("drv_c10")
     if not exe or not drv:
